@@ -1,4 +1,5 @@
 import Infretis.Model.Codec
+import Infretis.Model.CodecUni
 import Infretis.Model.CodecBox
 import Infretis.Model.TemplateCp2k
 /-
@@ -24,13 +25,19 @@ them: exact as floats), which are carried as `Int`.  `classify` sorts every othe
 ASCII character that no float literal contains — certainly a ValueError) and `other` (the model does not apply: result
 `outside`, the tie does not compare).  Of `box_vector_angles` only the rectangular case is rational: all three
 angles 90 (`math.isclose(angle, 90.0)` ⇒ cosine 0.0) gives the diagonal `l0, |l1|, |l2|` (`sqrt(l*l)`); other angles
-(and `l1 = 0`, a 0/0) are `outside`.  White space is ASCII.
+(and `l1 = 0`, a 0/0) are `outside`.  White space of `line.split()` is Python's complete `str.isspace` set (`splitPy`:
+the ASCII split after `CodecUni.normT` has shown every non-ASCII white-space character as a blank — the tokens hold no
+white space, so they are the tokens of Python; until the audit of 2026-09-30 this was the ASCII split, and the line
+`ABC 1<U+00A0>2 3` was a ValueError for the model and the box 1 2 3 for the code).
 -/
 namespace Infretis.BoxData
 open Infretis.Codec (isWs splitWs joinSp digitsVal)
 open Infretis.Box (M3 boxMatrixToList cellABC)
 
 abbrev Str := List Char
+
+/-- `line.split()` with Python's complete white-space set -/
+def splitPy (line : Str) : List Str := splitWs (Infretis.CodecUni.normT line)
 
 inductive Err | value | index | outside
 deriving DecidableEq, Repr
@@ -126,9 +133,9 @@ def startsKey (k : Key) (line : Str) : Bool := (k.text ++ [' ']).isPrefixOf line
 /-- the body of `for key in vectors + strings` for one key -/
 def stepKey (line : Str) (d : BoxDict) (k : Key) : Except Err BoxDict :=
   if startsKey k line then
-    if k = .PERIODIC then .ok { d with periodic := some (joinSp ((splitWs line).drop 1)) }
+    if k = .PERIODIC then .ok { d with periodic := some (joinSp ((splitPy line).drop 1)) }
     else
-      match nums ((splitWs line).drop 1) with
+      match nums ((splitPy line).drop 1) with
       | .ok v => .ok (setVec d k v)
       | .error e => .error e
   else .ok d
